@@ -8,6 +8,7 @@ import Driver.FilterEng
 import Driver.CacheEng
 import Driver.TreeEng
 import Driver.CtrlEng
+import Driver.ListerEng
 open Driver
 
 partial def loopFilter (h : IO.FS.Stream) (out : IO.FS.Stream) (univ : List KC.Obj) : IO Unit := do
@@ -57,12 +58,25 @@ partial def loopCtrl (h : IO.FS.Stream) (out : IO.FS.Stream) (st : KState) : IO 
     out.putStrLn "bad parse"
     loopCtrl h out st
 
+partial def loopLister (h : IO.FS.Stream) (out : IO.FS.Stream) (st : LState) : IO Unit := do
+  let line ← h.getLine
+  if line.isEmpty then return ()
+  match parseLine line with
+  | some e =>
+    let (st', o) := listerLine st e
+    out.putStrLn o
+    loopLister h out st'
+  | none =>
+    out.putStrLn "bad parse"
+    loopLister h out st
+
 def main (args : List String) : IO UInt32 := do
   let stdin ← IO.getStdin
   let stdout ← IO.getStdout
   match args with
   | ["filter"] => loopFilter stdin stdout []; return 0
   | ["cache"] => loopCache false stdin stdout {}; return 0
+  | ["lister"] => loopLister stdin stdout {}; return 0
   | ["ctrl"] => loopCtrl stdin stdout {}; return 0
   | ["tree"] => loopTree stdin stdout {}; return 0
   | ["cache-events"] => loopCache true stdin stdout {}; return 0
